@@ -1,26 +1,13 @@
-//! C02 wire-format conformance: real `bare_serialize` bytes == reference bytes at a symbolic
-//! index; real `bare_deserialize` of reference bytes == value and consumes exactly those bytes.
+//! C02 wire-format conformance (see props::wire_check).
 use crate::common::*;
+use crate::props::*;
 use crate::vt::*;
 use savefile::prelude::*;
 
 macro_rules! wire_harness {
     ($name:ident, $t:ty, $unwind:expr, $len:expr) => {
         kproof!($name, $unwind, {
-            set_len($len);
-            let x: $t = <$t as VT>::any();
-            let mut r = RefBuf::new();
-            x.enc(&mut r);
-            let (buf, n) = ser::<$t, REFCAP>(&x, 0).unwrap();
-            assert!(n == r.n, "C02: encoded length differs from the reference encoding");
-            let i: usize = kani::any();
-            kani::assume(i < r.n);
-            assert!(buf[i] == r.b[i], "C02: encoded byte differs from the reference encoding");
-            let (y, left) = de::<$t>(&r.b[..r.n], 0).unwrap();
-            assert!(left == 0, "C02: reader did not consume exactly the reference bytes");
-            assert!(x.same(&y), "C02: value read from reference bytes differs");
-            std::mem::forget(x);
-            std::mem::forget(y);
+            wire_check::<$t>($len);
             kani::cover!(true, "reached end");
         });
     };
